@@ -22,7 +22,8 @@ BASES = [("int", int, ["7", 3, "x"]), ("When", datetime.date, ["2020-01-02", 864
          ("Decimal", decimal.Decimal, ["1.50", 2, "abc"]), ("list[int]", list[int], ['["1", 2]', (3, "4"), "zz"]),
          ("Point", tp.Point, [{"x": "1", "y": "2.5"}, '{"x": 3}', {"y": 1}]),
          ("Optional[int]", typing.Optional[int], [None, "5", "q"]),
-         ("Literal['r','w']", typing.Literal["r", "w"], ["r", b"w", "x"])]
+         ("Literal['r','w']", typing.Literal["r", "w"], ["r", b"w", "x"]),
+         ("bytes", bytes, [b"raw \xff bytes", "text", 7])]
 globals()["Point"] = tp.Point
 
 
@@ -35,7 +36,10 @@ def wrappers():
 
     def final(t):
         return typing.Final[t]
-    return {"NewType": newtype, "Alias": alias, "Final": final}
+
+    def classvar(t):
+        return typing.ClassVar[t]
+    return {"NewType": newtype, "Alias": alias, "Final": final, "ClassVar": classvar}
 
 
 def chains(max_len=3):
@@ -43,8 +47,8 @@ def chains(max_len=3):
     names = list(w)
     for L in range(1, max_len + 1):
         for combo in itertools.product(names, repeat=L):
-            # Final is only legal outermost (root / field) - keep it first
-            if "Final" in combo[1:]:
+            # Final / ClassVar are only legal outermost (root / field) - keep them first
+            if "Final" in combo[1:] or "ClassVar" in combo[1:]:
                 continue
             yield combo
 
@@ -74,7 +78,7 @@ def same_outcome(a, b):
 def positions(W, name):
     """The wrapped annotation at the root and at nested positions, with the matching plain annotation builder."""
     yield "root", (lambda t: t), (lambda x: x)
-    if "Final" not in name:
+    if "Final" not in name and "ClassVar" not in name:
         yield "list member", (lambda t: list[t]), (lambda x: [x])
         yield "dict value", (lambda t: dict[str, t]), (lambda x: {"k": x})
         yield "tuple member", (lambda t: tuple[int, t]), (lambda x: [1, x])
@@ -106,6 +110,17 @@ def search(stop_at=1, max_len=2):
                         mb = outcome(lambda: typelib.marshal(b[1], t=Tp))
                         if not same_outcome(ma, mb):
                             msg = f"marshal through {cname} at {pname}: {ma!r}, plain type gives {mb!r}"
+                    if not msg and a[0] == "ok" and pname == "root":
+                        # ... and codecs: the wrapped annotation's codec encodes / decodes like the plain type's
+                        ca = outcome(lambda: typelib.codec(Tw).encode(a[1]))
+                        cb = outcome(lambda: typelib.codec(Tp).encode(b[1]))
+                        if not same_outcome(ca, cb):
+                            msg = f"codec({cname}).encode: {ca!r}, plain type gives {cb!r}"
+                        elif ca[0] == "ok":
+                            da = outcome(lambda: typelib.codec(Tw).decode(ca[1]))
+                            db = outcome(lambda: typelib.codec(Tp).decode(cb[1]))
+                            if not same_outcome(da, db):
+                                msg = f"codec({cname}).decode: {da!r}, plain type gives {db!r}"
                     if msg:
                         fails.append({"base": bname, "chain": list(combo), "position": pname, "input": repr(x), "failure": msg})
                         if stop_at and len(fails) >= stop_at:
